@@ -899,7 +899,10 @@ def _work_cli(vm, d):
 # ---- AST census of path-opening / mutating call sites ------------------------------------------------------------------------------
 OPENERS = {"open", "read_text", "read_bytes"}
 MUTATORS = {"write_text", "write_bytes", "unlink", "rmdir", "mkdir", "rename", "replace", "touch", "chmod", "symlink_to", "remove",
-            "removedirs", "rmtree", "copy", "copyfile", "move", "truncate", "makedirs", "system", "popen", "Popen", "run"}
+            "removedirs", "rmtree", "copy", "copyfile", "move", "truncate", "makedirs", "system", "popen", "Popen", "run",
+            # metadata of a file is evidence too: times, owner, mode, flags, extended attributes, further names
+            "utime", "chown", "lchown", "lchmod", "fchmod", "fchown", "chflags", "lchflags", "setxattr", "removexattr", "link",
+            "symlink", "hardlink_to", "link_to", "mkfifo", "mknod", "ftruncate", "copymode", "copystat", "copy2", "copytree"}
 # call sites (file -> functions) the census workload is known to reach; an opener outside this map is reported as uncovered
 EXPECTED_REACHED = {
     "disk/vhdx.py": {"__init__"},
